@@ -27,7 +27,7 @@ def make(prop, quick=(4, 6), thorough=(40, 20), extra_run=None):
 
     def run(ctx):
         nh, nops = thorough if ctx.thorough else quick
-        shared.shared_run(ctx, {prop}, nh, nops)
+        shared.shared_run(ctx, {prop}, nh, nops, corr_policy="all" if ctx.thorough else "core")
         if extra_run:
             extra_run(ctx)
 
